@@ -628,3 +628,15 @@ def reachable_c(b, starts, targets, blocked=()):
         if t in plain and feasible_path(b, list(starts), t, blocked) is not None:
             out.append(t)
     return out
+
+
+def join_part_lists(t):
+    """All flattened component lists of a (Phi of) nested os.path.join terms."""
+    out = []
+    for a in flat(t):
+        if is_call(a, *JOIN) and not a.kwargs and a.args:
+            for head in join_part_lists(a.args[0]):
+                out.append(head + list(a.args[1:]))
+        else:
+            out.append([a])
+    return out
